@@ -129,10 +129,178 @@ def overlap_reset_run_case(d: int, slow_hook: bool) -> dict:
         return {'d': d, 'slow_hook': slow_hook, 'error': f'{type(e).__name__}: {e}'}
 
 
+def plugin_fault_variants() -> list[dict]:
+    """A third-party plugin, registered with nl.register(), that fails around the run: its context-manager hook `run` (ordered by
+    default, tryfirst or trylast among the implementations, i.e. entered before or after the built-in session has created the child)
+    raises when it is entered or when it is left, at once or after `susp` suspensions; or its `on_start_run` / `on_end_run` raises.
+    `where` = 'none' is the control: the same plugin, not failing."""
+    vs: list[dict] = []
+    for order in ('plain', 'tryfirst', 'trylast'):
+        vs.append({'hook': 'run', 'order': order, 'where': 'none', 'susp': 0})
+        for where in ('enter', 'exit'):
+            for susp in (0, 2):
+                vs.append({'hook': 'run', 'order': order, 'where': where, 'susp': susp})
+    for hook in ('on_start_run', 'on_end_run'):
+        for susp in (0, 2):
+            vs.append({'hook': hook, 'order': 'plain', 'where': 'call', 'susp': susp})
+    return vs
+
+
+def plugin_fault_case(v: dict, sched: Any = None) -> dict:
+    """One object, one faulty third-party plugin (see `plugin_fault_variants`) that fails in the first run only.  run(); the simulated
+    child exits only when the scenario says so (after run() has returned and everything has settled), so a run that is given up
+    without waiting for its child leaves the child alive and visible.  Then reset() + run().  Sampled: the live children of the
+    object at every publication of the state 'finished' and of a run_info in state 'finished', and after every scheduler step.
+    `sched`: None = first-in-first-out loop, an integer = the seed of a randomly permuting loop."""
+    import asyncio
+    import random
+    from contextlib import asynccontextmanager
+    from .. import fakes, loop as ctl
+    from nextline.spawned import RunResult
+
+    holder: dict = {}
+    out: dict = {'variant': v, 'sched': sched, 'max_live': 0, 'published_finished': [], 'steps': []}
+
+    def on_step() -> None:
+        w = holder.get('w')
+        if w is not None:
+            out['max_live'] = max(out['max_live'], len(w.live()))
+
+    async def main() -> dict:
+        from nextline.plugin.spec import hookimpl
+        sc = lifecycle.Scenario(0, 1, False, False)
+        await sc.setup()
+        nl = sc.nl
+        holder['w'] = sc.world
+        mark = {'plain': hookimpl, 'tryfirst': hookimpl(tryfirst=True), 'trylast': hookimpl(trylast=True)}[v['order']]
+        calls = {'n': 0}
+
+        async def fail(what: str) -> None:
+            for _ in range(v['susp']):
+                await asyncio.sleep(0)
+            raise RuntimeError(f'third-party plugin failure {what} (injected by the harness)')
+
+        if v['hook'] == 'run':
+            class Faulty:
+                @mark
+                @asynccontextmanager
+                async def run(self, context: Any) -> Any:
+                    calls['n'] += 1
+                    first = calls['n'] == 1
+                    out.setdefault('child_exists_at_enter', context.running_process is not None)
+                    if first and v['where'] == 'enter':
+                        await fail('entering its run context')
+                    yield
+                    if first and v['where'] == 'exit':
+                        await fail('leaving its run context')
+        elif v['hook'] == 'on_start_run':
+            class Faulty:  # type: ignore[no-redef]
+                @mark
+                async def on_start_run(self, context: Any, event: Any) -> None:
+                    calls['n'] += 1
+                    if calls['n'] == 1:
+                        await fail('in on_start_run')
+        else:
+            class Faulty:  # type: ignore[no-redef]
+                @mark
+                async def on_end_run(self, context: Any, event: Any) -> None:
+                    calls['n'] += 1
+                    if calls['n'] == 1:
+                        await fail('in on_end_run')
+        await sc.op('start')
+        if nl.register(Faulty()) is None:
+            raise RuntimeError('the plugin was not registered')
+        # observe publications at the broker, at the moment they are made
+        ps = nl._imp.pubsub
+        org_publish = ps.publish
+
+        async def publish(key: Any, value: Any) -> None:
+            what = None
+            if key == 'state_name' and value == 'finished':
+                what = 'state'
+            elif key == 'run_info' and getattr(value, 'state', None) == 'finished':
+                what = f'run_info/{value.run_no}'
+            if what is not None:
+                out['published_finished'].append({'what': what, 'live_pids': [c.process.pid for c in sc.world.live()],
+                                                  'children_so_far': len(sc.world.children)})
+            await org_publish(key, value)
+        ps.publish = publish
+
+        async def call(name: str) -> None:
+            try:
+                await asyncio.wait_for(getattr(nl, name)(), timeout=5)
+                res = 'ok'
+            except BaseException as e:  # noqa
+                res = type(e).__name__
+            await lifecycle.settle()
+            out['steps'].append({'call': name, 'result': res, 'state': nl.state, 'live': len(sc.world.live()),
+                                 'children_so_far': len(sc.world.children)})
+
+        async def child_exits() -> None:
+            live = sc.world.live()
+            for c in live:
+                c.exit(RunResult(ret=None), exitcode=0)
+            await lifecycle.settle()
+            out['steps'].append({'call': f'(the child exits: {len(live)})', 'state': nl.state, 'live': len(sc.world.live())})
+
+        await call('run')                # the plugin fails here, or ...
+        out['children_run1'] = len(sc.world.children)
+        if nl.state == 'running':
+            await child_exits()          # ... here.  (A child is told to exit only while the object says a run is in progress:
+                                         # what is alive once 'finished' has been reported stays alive.)
+        out['state_after_run1'] = nl.state
+        await call('reset')
+        await call('run')
+        out['live_in_run2'] = len(sc.world.live())
+        out['state_in_run2'] = nl.state
+        out['plugin_calls'] = calls['n']
+        if nl.state == 'running':
+            await child_exits()
+        out['state_end'] = nl.state
+        out['live_end'] = len(sc.world.live())
+        for c in sc.world.live():        # clean up
+            c.exit(RunResult(ret=None), exitcode=0)
+        await lifecycle.settle()
+        try:
+            await asyncio.wait_for(nl.close(), timeout=5)
+        except BaseException:  # noqa
+            pass
+        return out
+    fakes.install()
+    try:
+        return ctl.run(main, ctl.Fifo() if sched is None else ctl.Rand(random.Random(sched)), on_step)
+    except (Exception, ctl.StepBudgetExceeded) as e:  # noqa
+        return {'variant': v, 'sched': sched, 'error': f'{type(e).__name__}: {e}'}
+
+
+def oracle_plugin_fault(r: dict) -> list[str]:
+    v = r['variant']
+    if v['hook'] == 'run':
+        desc = (f"a third-party plugin's `run` context hook ({v['order']} order) "
+                + {'none': 'that does not fail', 'enter': 'raises when entered', 'exit': 'raises when left'}[v['where']])
+    else:
+        desc = f"a third-party plugin's `{v['hook']}` hook raises"
+    if v['susp']:
+        desc += f" (after {v['susp']} suspensions)"
+    m = []
+    for p in r['published_finished']:
+        if p['live_pids']:
+            m.append(f"{desc}: {p['what']} 'finished' was published while the child process(es) {p['live_pids']} of the object were alive")
+    if r['max_live'] > 1:
+        m.append(f"{desc}; then reset() + run(): {r['max_live']} child processes of the object alive at once")
+    for s in r['steps']:
+        if s['live'] and s['state'] != 'running':
+            m.append(f"{desc}: after {s['call']} the state is {s['state']!r} with {s['live']} child process(es) alive")
+            break
+    return list(dict.fromkeys(m))
+
+
 def run(chk: common.Check) -> None:
     chk.cov.rule = ('serial histories (as C01) over several run cycles; the number of live simulated children is sampled after every operation; '
                     'compared with the Lean model on child starts, state publications and call results; overlapping run/run, run/reset, reset/run, '
-                    'run/close from 2–3 tasks under the permuting loop with live children sampled after every scheduler step (oracle only). '
+                    'run/close from 2–3 tasks under the permuting loop with live children sampled after every scheduler step (oracle only); '
+                    'a third-party plugin failing around the run (its `run` context hook in default/tryfirst/trylast order raising on enter or on '
+                    'exit, its on_start_run/on_end_run raising), live children sampled at every publication of \'finished\' (oracle only). '
                     'Non-trivial: a request was issued while a run was in progress; distinct = distinct (options, history, schedule kind).')
     chk.assumptions += ['serial histories; hooks do not raise']
     L = 3 if chk.tier == 'quick' else 4
@@ -197,6 +365,23 @@ def run(chk: common.Check) -> None:
                 m.append(f"the caller of run() was cancelled {k} steps after the request, then reset()/run(): {r['max_live']} child processes alive at once")
         if m:
             oracle_fail.append(({'cancel_run_caller': r}, m, None))
+    # a third-party plugin fails around the run (its `run` context hook in the three hook orders, on enter / on exit; its
+    # on_start_run / on_end_run): no child of the object is alive when 'finished' is published, never two children
+    for v in plugin_fault_variants():
+        for sched in (None, chk.seed * 7919 + 1, chk.seed * 7919 + 2):
+            r = plugin_fault_case(v, sched)
+            kind = 'plugin-' + v['hook'] + ('' if v['hook'] != 'run' else '-' + v['order']) + '-' + v['where']
+            chk.cov.case(('plugin-fault', v['hook'], v['order'], v['where'], v['susp'], 'fifo' if sched is None else 'rand'))
+            chk.cov.count('kinds', kind)
+            if 'error' in r:
+                oracle_fail.append(({'plugin_fault': r}, [f'scenario failed: {r["error"]}'], None))
+                continue
+            m = oracle_plugin_fault(r)
+            if m:
+                # on_start_run is called by the built-in session after the child was created and before the part of its `run`
+                # context that waits for the child: a raising on_start_run is the mechanism of the open finding F-A2d
+                sig = 'start_run_hook_failure_abandons_child' if v['hook'] == 'on_start_run' else None
+                oracle_fail.append(({'plugin_fault': r}, m, sig))
     # real spawn children: when 'finished' is published no child process of the object is alive — also for a script whose process
     # takes seconds to exit after the script has returned (a non-daemon thread it left behind, thread tracing off)
     rs = [{'statement': 'import threading, time\nthreading.Thread(target=time.sleep, args=(4.5,)).start()\nx = 1\n', 'mode': 'continuous',
